@@ -96,6 +96,7 @@ def run_case(args):
     # replay the stack of asserted literals
     stack, usable, natoms = [], {}, 0
     claims = []                       # (literal stack, tainted?) the solver called consistent in a complete check
+    models = []                       # (literal stack, {variable index: value string}) the solver's witness for such a verdict
     checked, tainted = [], False      # checked[i]: a check answered `consistent` while stack[i] was asserted
     def backtracked():
         # literals that stay asserted across a backtrack without ever having been part of a successful check
@@ -137,6 +138,11 @@ def run_case(args):
                 # deductions: the reason of each must be made of currently asserted literals
                 for part in out.split("|")[1:]:
                     w = part.split()
+                    if w and w[0] == "model":
+                        models.append((list(stack), {int(x.split("=")[0]): x.split("=")[1] for x in w[1:]}))
+                        continue
+                    if w and w[0] == "model-error":
+                        continue
                     reason = [(int(x.split(":")[0]), int(x.split(":")[1])) for x in w[3:]]
                     res["deductions"] = res.get("deductions", 0) + 1
                     if not set(reason) <= set(stack):
@@ -174,8 +180,24 @@ def run_case(args):
         if not v.startswith("OK"):
             res["problems"].append({"what": f"a reported inconsistency is not certified theory-unsatisfiable: {v}", "kind": "conflict"})
             return res
-    # every `consistent` verdict is attacked with the certificate producers
     tt = tr.logics[S.logic]
+    # a `consistent` verdict is confirmed when the solver's own values, evaluated by the Lean evaluator, make every asserted literal true
+    if models and th in ("lra", "lia"):
+        import c13
+        from fractions import Fraction
+        for st, vals in models[-3:]:
+            if not st:
+                continue
+            ids = [S.varmap[a + 1] for a, s in st]
+            try:
+                got = c13.lean_eval_trace_terms(tt, {f"x{k}": Fraction(v) for k, v in vals.items()}, ids)
+            except Exception:
+                continue
+            if len(got) == len(ids) and all(g == ("b:true" if s else "b:false") for g, (a, s) in zip(got, st)):
+                res["sat_confirmed"] += 1
+            else:
+                res["sat_model_invalid"] = res.get("sat_model_invalid", 0) + 1
+    # every `consistent` verdict is attacked with the certificate producers
     seen = set()
     if len(claims) > 8:
         claims = claims[-4:] + random.Random(f"c22-claims-{idx}").sample(claims[:-4], 4)
@@ -218,6 +240,8 @@ def run(tier):
         b = by.setdefault(r["theory"], {"cases": 0, "verdicts": 0, "conflicts": 0, "consistency_claims": 0})
         b["cases"] += 1; b["verdicts"] += r["verdicts"]; b["conflicts"] += r["conflicts"]; b["consistency_claims"] += r["sat_claims"]
         b["deductions"] = b.get("deductions", 0) + r.get("deductions", 0)
+        b["consistency_confirmed_by_validated_model"] = b.get("consistency_confirmed_by_validated_model", 0) + r.get("sat_confirmed", 0)
+        b["witness_not_validated"] = b.get("witness_not_validated", 0) + r.get("sat_model_invalid", 0)
         chk.case(key=(r["idx"], r["verdicts"], r["conflicts"]), nontrivial=r["conflicts"] > 0 or r["sat_claims"] > 0,
                  sample={"theory": r["theory"], "operations": len(r["ops"]), "conflicts": r["conflicts"], "consistency_claims": r["sat_claims"]}
                  if r["conflicts"] else None)
